@@ -9,7 +9,6 @@ use sodg::{Hex, Label, Script, Sodg};
 use std::collections::HashMap;
 use std::time::Instant;
 
-const N: usize = 3;
 const CAP: usize = 6;
 
 #[derive(Debug, Clone, PartialEq, Eq)]
@@ -178,7 +177,7 @@ pub fn classify(text: &str) -> Cls {
 
 /// The same calls made directly. None if a graph precondition would be broken
 /// (then the statement promises nothing) or a call panics.
-pub fn direct(cmds: &[Cmd]) -> Option<Sodg<N>> {
+pub fn direct<const N: usize>(cmds: &[Cmd]) -> Option<Sodg<N>> {
     let mut g: Sodg<N> = Sodg::empty(CAP);
     let mut vars: HashMap<String, usize> = HashMap::new();
     let mut resolve = |g: &mut Sodg<N>, id: &Id| -> Option<usize> {
@@ -237,7 +236,7 @@ fn without_pos(mut s: Snapshot) -> Snapshot {
 }
 
 /// Judge one text. Returns the class name.
-pub fn check_text(acc: &mut Acc, text: &str, origin: &str) -> &'static str {
+pub fn check_text<const N: usize>(acc: &mut Acc, text: &str, origin: &str) -> &'static str {
     acc.evaluations += 1;
     let cls = classify(text);
     let replay = json!({"engine": "proggen", "property": "C14", "text": text, "origin": origin});
@@ -249,7 +248,7 @@ pub fn check_text(acc: &mut Acc, text: &str, origin: &str) -> &'static str {
             "grey"
         }
         Cls::Ok(cmds) => {
-            let Some(want) = direct(&cmds) else {
+            let Some(want) = direct::<N>(&cmds) else {
                 acc.bump("well_formed_but_breaking_a_graph_precondition", 1);
                 return "skipped";
             };
@@ -270,7 +269,7 @@ pub fn check_text(acc: &mut Acc, text: &str, origin: &str) -> &'static str {
             "well-formed"
         }
         Cls::Malformed(prefix) => {
-            let Some(want) = direct(&prefix) else {
+            let Some(want) = direct::<N>(&prefix) else {
                 acc.bump("malformed_after_breaking_a_graph_precondition", 1);
                 return "skipped";
             };
@@ -304,7 +303,7 @@ pub enum PCmd {
     Put(PId, usize),
 }
 
-const LABELS: [&str; 3] = ["foo", "α1", "x"];
+const LABELS: [&str; 4] = ["foo", "α1", "x", "ρ"];
 const DATA: [&[u8]; 3] = [&[0xAB], &[1, 2, 3, 4, 5, 6, 7, 0xF8], &[9, 8, 7, 6, 5, 4, 3, 2, 0xC1]];
 
 #[derive(Clone, Copy, Debug)]
@@ -433,7 +432,7 @@ pub fn to_cmds(p: &[PCmd], s: &Style) -> Vec<Cmd> {
 }
 
 /// All programs of exactly `len` commands whose direct execution respects the preconditions.
-pub fn programs(len: usize, ids: &[PId], labels: usize, data: usize) -> Vec<Vec<PCmd>> {
+pub fn programs<const N: usize>(len: usize, ids: &[PId], labels: usize, data: usize) -> Vec<Vec<PCmd>> {
     let mut cmds = vec![];
     for a in ids {
         cmds.push(PCmd::Add(*a));
@@ -459,7 +458,7 @@ pub fn programs(len: usize, ids: &[PId], labels: usize, data: usize) -> Vec<Vec<
             for c in &cmds {
                 let mut q = p.clone();
                 q.push(*c);
-                if direct(&to_cmds(&q, &base)).is_some() {
+                if direct::<N>(&to_cmds(&q, &base)).is_some() {
                     next.push(q);
                 }
             }
@@ -506,14 +505,14 @@ pub fn run_c14(tier: &str) -> Outcome {
     let mut progs: Vec<(Vec<PCmd>, bool)> = vec![]; // (program, render with every style?)
     let maxlen = if quick { 3 } else { 5 };
     for len in 1..=maxlen {
-        for p in programs(len, &full_ids, 3, 3) {
+        for p in programs::<3>(len, &full_ids, if len <= 2 { 4 } else { 3 }, 3) {
             progs.push((p, len <= 2));
         }
     }
     // longer programs over a reduced alphabet
     let (rl_from, rl_to) = if quick { (4, 4) } else { (6, 8) };
     for len in rl_from..=rl_to {
-        for p in programs(len, &[PId::Lit(0), PId::Var(0)], 1, 1) {
+        for p in programs::<3>(len, &[PId::Lit(0), PId::Var(0)], 1, 1) {
             progs.push((p, false));
         }
     }
@@ -536,18 +535,41 @@ pub fn run_c14(tier: &str) -> Outcome {
                     continue;
                 }
             }
-            check_text(acc, &text, "rendered program");
+            check_text::<3>(acc, &text, "rendered program");
             if (i * 31 + si) % 200_003 == 0 {
                 acc.sample(json!({"script": text}));
             }
         }
         acc.bump("programs", 1);
     });
+    // the same on Sodg<1>: every vertex is full after its first edge, so re-binding a label
+    // (which needs no free room) and binding a second one (a broken precondition: skipped) differ
+    let n1_progs: Vec<Vec<PCmd>> = {
+        let mut v = vec![];
+        for len in 1..=(if quick { 4 } else { 6 }) {
+            v.extend(programs::<1>(len, &[PId::Lit(0), PId::Lit(1), PId::Var(0)], 2, 1));
+        }
+        v
+    };
+    let n1acc = super::par_cases(n1_progs.len(), |i, acc| {
+        for s in [&menu[0], &menu[9]] {
+            let text = render(&n1_progs[i], s);
+            let before = acc.failures.len();
+            check_text::<1>(acc, &text, "rendered program on Sodg<1>");
+            for f in acc.failures[before..].iter_mut() {
+                if let Value::Object(m) = &mut f.replay {
+                    m.insert("n".into(), json!(1));
+                }
+            }
+        }
+        acc.bump("programs_on_sodg1", 1);
+    });
+    acc.merge(n1acc);
     // single-fault corruption
     let fault_progs: Vec<Vec<PCmd>> = {
         let mut v = vec![];
         for len in 1..=(if quick { 2 } else { 4 }) {
-            v.extend(programs(len, &small_ids, 2, 2));
+            v.extend(programs::<3>(len, &small_ids, 2, 2));
         }
         v
     };
@@ -557,7 +579,7 @@ pub fn run_c14(tier: &str) -> Outcome {
             let text = render(&fault_progs[i], s);
             crate::inflight::begin_case(|| json!({"engine": "proggen", "property": "C14", "text": text, "kind": "crash-or-hang", "tags": ["C14"], "note": "some single-character corruption of this text"}));
             for (k, f) in faults(&text).into_iter().enumerate() {
-                let class = check_text(acc, &f, "single-character corruption");
+                let class = check_text::<3>(acc, &f, "single-character corruption");
                 acc.bump("corrupted_texts", 1);
                 if (i * 7919 + k) % 300_007 == 0 {
                     acc.sample(json!({"corrupted_script": f, "class": class}));
@@ -577,7 +599,7 @@ pub fn run_c14(tier: &str) -> Outcome {
         acc.failures.retain(|f| !f.signature.starts_with("machinery:"));
     }
     let rule = format!(
-        "PROGGEN: every program of <= {maxlen} ADD/BIND/PUT commands over ids {{0,1,2,$a,$b}}, labels {{foo, α1, x}}, data {{1, 8, 9 bytes}} (and of {rl_from}..={rl_to} commands over {{0,$a}}) whose direct execution respects the graph preconditions; each rendered with a menu of 13 legal formattings, programs of <= 2 commands with the full product of 1728 (whitespace, spaces before the parenthesis, ν-prefixes, $ν1-style names, hex case/dashes/blanks/line breaks inside the literal, comments containing ; ( #, empty commands, final semicolon); oracle: complete internal state after deploy_to == state after the same calls made directly, count == number of commands. PLUS every single-character deletion/replacement/insertion ({} fault characters) at every position of every program of <= {} commands over a reduced alphabet in two renderings, judged by a conservative reference parser: well-formed -> equals its own direct calls; definitely malformed at command i -> Err, no panic, graph == commands 0..i; grey -> no demand. distinct_nontrivial = texts with a settled class",
+        "PROGGEN: every program of <= {maxlen} ADD/BIND/PUT commands over ids {{0,1,2,$a,$b}}, labels {{foo, α1, x}} (and the single non-ASCII letter ρ in programs of <= 2 commands), data {{1, 8, 9 bytes}} (and of {rl_from}..={rl_to} commands over {{0,$a}}) whose direct execution respects the graph preconditions; each rendered with a menu of 13 legal formattings, programs of <= 2 commands with the full product of 1728 (whitespace, spaces before the parenthesis, ν-prefixes, $ν1-style names, hex case/dashes/blanks/line breaks inside the literal, comments containing ; ( #, empty commands, final semicolon); the programs over a reduced alphabet also on Sodg<1>; oracle: complete internal state after deploy_to == state after the same calls made directly, count == number of commands. PLUS every single-character deletion/replacement/insertion ({} fault characters) at every position of every program of <= {} commands over a reduced alphabet in two renderings, judged by a conservative reference parser: well-formed -> equals its own direct calls; definitely malformed at command i -> Err, no panic, graph == commands 0..i; grey -> no demand. distinct_nontrivial = texts with a settled class",
         FAULTS.len(),
         if quick { 2 } else { 4 }
     );
@@ -588,7 +610,11 @@ pub fn replay(v: &Value) -> i32 {
     let mut acc = Acc::default();
     let text = v["text"].as_str().unwrap_or("");
     println!("script: {text:?}\nclass: {:?}", classify(text));
-    check_text(&mut acc, text, "replay");
+    if v["n"].as_u64() == Some(1) {
+        check_text::<1>(&mut acc, text, "replay");
+    } else {
+        check_text::<3>(&mut acc, text, "replay");
+    }
     for f in &acc.failures {
         println!("  {}", f.summary);
     }
